@@ -337,6 +337,11 @@ def special_cases(ctx):
         for cmd in [1, 2, 4, 6]:
             load('tnd', b'\x18TUNDRA24' + bytes([cmd]) + struct.pack('>II', pos, pos) + b'A\x00\x00\x00\x00')
             load('tnd', b'\x18TUNDRA24' + b'A' + bytes([cmd]) + struct.pack('>II', pos, 0))
+    # a jump record with ONE extreme coordinate, followed by a character (the cell write is what allocates)
+    for pos in [65534, 65535, 65536, 100000, 120000, 1000000, 0x7fffffff, 0x80000000, 0xffffffff]:
+        load('tnd', b'\x18TUNDRA24' + b'\x01' + struct.pack('>II', pos, 0) + b'A' + b'\x06\x01\x02\x03\x04\x05\x06\x07\x08')
+        load('tnd', b'\x18TUNDRA24' + b'\x01' + struct.pack('>II', 0, pos) + b'A' + b'\x06\x01\x02\x03\x04\x05\x06\x07\x08')
+        load('tnd', b'\x18TUNDRA24' + b'B\x01' + struct.pack('>II', pos, 3) + b'AB')
     for v in [0, 1, 255]:
         load('adf', bytes([v]) + b'\x3f' * 40)
     for ext in ['bin', 'ans', 'pcb', 'avt', 'asc', 'icy', 'ice', 'diz', 'seq', 'msg']:
